@@ -9,15 +9,20 @@ AllFaults ==
   \cup {<<k, at>> : k \in {"close", "reset", "stall", "garbage", "rststream", "connstall"}, at \in {"posthdr", "midbody"}}
   \cup {<<"rststream", "prehdr">>, <<"connstall", "midhdr">>}
   \cup {<<"close", "between">>, <<"reset", "between">>, <<"none", "none">>}
+  \cup {<<"goaway", at>> : at \in {"prehdr", "posthdr", "between"}}
 \* a cheaper set for the two-request instances of the quick tier
 CoreFaults ==
   {<<"refuse", "accept">>, <<"stall", "accept">>, <<"close", "prehdr">>, <<"garbage", "midhdr">>, <<"stall", "midhdr">>,
    <<"reset", "posthdr">>, <<"close", "midbody">>, <<"stall", "midbody">>, <<"rststream", "posthdr">>,
-   <<"connstall", "midbody">>, <<"close", "between">>, <<"none", "none">>}
+   <<"connstall", "midbody">>, <<"close", "between">>, <<"none", "none">>,
+   <<"goaway", "prehdr">>, <<"goaway", "between">>}
+\* the recovery instance (three requests) only needs the refusal
+RecoveryFaults == {<<"refuse", "accept">>}
 AllSiblings == SiblingKinds
+NoSiblings == {}
 CoreSiblings == {"b", "bdrip", "a", "noroute", "nobackend"}
 BothProtos == {"h1", "h2"}
-AllFramings == {"cl", "chunked", "close"}
+AllFramings == {"cl", "chunked", "close", "clclose"}
 CoreFramings == {"cl"}
 BothTimings == {"bf", "ff"}
 BackFirst == {"bf"}
